@@ -390,11 +390,19 @@ def d7(chk, prog):
         thr = [OrderVal(f"t{i}", 10 * i, None) for i in range(3)]
         bafs = [Term.sym(f"baf{i}", 0, 1) for i in range(3)]
 
-        def baf_by_ranges(ranges, *a, seen=seen, **k):
-            seen["stages"] = ranges.meta.get("stages", ())
-            seen["cols"] = [c for c in ranges.data.cols if not c.startswith("__")]
-            return Vec(list(bafs), aligned=True)
-        variants = Row({"baf_by_ranges": baf_by_ranges, "sample_id": "S"})
+        # the variants: a real VariantArray whose baf_by_ranges body is interpreted; into_ranges is summarised by its contract
+        # (one value per range of `other`, as a pd.Series on a fresh 0..n-1 index -- C07-D4)
+        variants = make_ga("VariantArray", [dict(chromosome="chr1", start=5 + 10 * i, end=6 + 10 * i, ref="A", alt="C", zygosity=Fr(1, 2), alt_freq=Term.sym(f"af{i}", 0, 1)) for i in range(3)],
+                           {"sample_id": "S"})
+        model.method_prims["heterozygous"] = lambda it, v, *a, **k: v
+
+        def baf_values(it, v, other, column, default, summary_func=None, seen=seen):
+            seen["stages"] = other.meta.get("stages", ())
+            seen["cols"] = [c for c in other.data.cols if not c.startswith("__")]
+            seen["column"] = column
+            return list(bafs)
+        # labelled the way the real into_ranges labels its result (the segment table here has index labels 7, 3, 11)
+        model.method_prims["into_ranges"] = into_ranges_stub(prog, baf_values)
         it = Interp(prog, model)
         out = tb.guard(lambda: it.run(fi.qn, [g, variants, "threshold", 2, None, False, False, None, filters, thr]), f"filters={filters}")
         if out is None:
@@ -425,6 +433,7 @@ def run(chk):
 _V = "skgenome/tabio/vcfio.py"
 _Y = "cnvlib/vary.py"
 MUTANTS = [
+    dict(name="regress: into_ranges returns its values on a fresh 0..n-1 index (pre-fix code)", edits=[("skgenome/intersect.py", "        return pd.Series([default] * len(dest), index=dest.index)", "        return pd.Series([default] * len(dest))"), ("skgenome/intersect.py", "    return pd.Series(result, index=dest.index)", "    return pd.Series(result)")]),
     dict(name="twin: mirrored BAF through np.where", expect="silent", file="cnvlib/vary.py", old="    if above_half:\n        return 0.5 + shift\n    return 0.5 - shift", new="    return 0.5 + shift if above_half else 0.5 - shift"),
     dict(name="regress: tumor_boost returned on a fresh index", file=_Y, old='        return self.as_series(_tumor_boost(self["alt_freq"].values, self["n_alt_freq"].values).values)', new='        return _tumor_boost(self["alt_freq"].values, self["n_alt_freq"].values)'),
     dict(name="start from record.pos", file=_V, old="        start = record.start\n", new="        start = record.pos\n"),
